@@ -60,6 +60,7 @@ type link struct {
 }
 
 type run struct {
+	noPair bool
 	force                  *[2]int
 	pairAcc                map[uintptr]*pairAccess
 	pairRace, pairRaceWhat string
@@ -168,6 +169,12 @@ func (r *run) accessHook(p interface{}, write bool, site string) {
 			return
 		}
 		key = v.Pointer()
+	case reflect.Slice:
+		// the elements of a slice: keyed by its first element
+		if v.Len() == 0 {
+			return
+		}
+		key = v.Pointer()
 	case reflect.Ptr:
 		if v.IsNil() {
 			return
@@ -215,7 +222,7 @@ func (r *run) accessHook(p interface{}, write bool, site string) {
 			what = what[:i] + "[]"
 		}
 		r.pairRaceWhat = fmt.Sprintf("%s,%s-%s", what, k(otherWrite), k(write))
-		r.pairRace = fmt.Sprintf("%s at %s by query t%d and %s at %s by query t%d: two overlapping ShortestRoute calls touch the same map and nothing orders them (in a real execution these accesses can run at the same time)", k(otherWrite), otherSite, other, k(write), site, tid)
+		r.pairRace = fmt.Sprintf("%s at %s by query t%d and %s at %s by query t%d: two overlapping ShortestRoute calls touch the same map or slice and nothing orders them (in a real execution these accesses can run at the same time)", k(otherWrite), otherSite, other, k(write), site, tid)
 		return
 	}
 	if write {
@@ -369,6 +376,16 @@ func (r *run) exec() {
 	}
 	for i := 0; i < 3 && r.res.Viol == nil && len(r.links) > 0; i++ {
 		r.query()
+	}
+	if !big && len(r.links) > 0 && len(r.links) <= 14 && t.OneIn(1500, "many-queries") {
+		// tens of thousands of queries on one small network (anything that
+		// counts or recycles per query: 16-bit stamps, pooled storage)
+		r.res.Probe("run-with-66000-queries")
+		r.noPair = true
+		for i := 0; i < 66000 && r.res.Viol == nil; i++ {
+			r.query()
+		}
+		r.noPair = false
 	}
 	r.res.Steps = int64(ops)
 }
@@ -672,7 +689,7 @@ func (r *run) query() {
 		}
 	}
 	r.states[r.topoHash()] = struct{}{}
-	if len(r.links) >= 3 && t.OneIn(5, "interleaved-pair") {
+	if len(r.links) >= 3 && !r.noPair && t.OneIn(5, "interleaved-pair") {
 		// two queries on the same network, interleaved at every neighbour-list
 		// hand-over (ShortestRoute promises not to change the network, "so
 		// multiple function calls can be run concurrently")
